@@ -150,7 +150,7 @@ def handle (j : Json) : R Json := do
       ("scope", toJson (k ≤ 1 || validB m evs))]
   | "pe" =>
     let cmds ← listOf execOfJson (← fld j "outcomes")
-    let f := childProcess interrupt
+    let f := runnerOf (boolFD j "verbose" false) interrupt
     let model := parallelExecute cfg f cmds cpus ht evs
     let m := numChunks cmds.length k
     return jObj [
